@@ -87,7 +87,7 @@ func captureStop() string {
 var noiseRe = []*regexp.Regexp{
 	regexp.MustCompile(`Failed to reflect on [^\n]*\n`),
 	regexp.MustCompile(`Failed to convert array-member to object`),
-	regexp.MustCompile("Invalid regular expression .*? error parsing regexp: [^`]*`[^`]*`"),
+	regexp.MustCompile("(?s)Invalid regular expression .*? error parsing regexp: [^`]*`[^`]*`"),
 	regexp.MustCompile(`Warning: Invalid opcode 0x[0-9A-F]+\n`),
 }
 
@@ -493,8 +493,135 @@ func RunImpl(c *Case) string {
 			}
 			fmt.Fprintf(&sb, " t%d=%s", i, t)
 		}
+		if has(c.Show, "stack") {
+			fmt.Fprintf(&sb, " k%d=%d", i, e.VerifMachine().VerifStackSize())
+		}
+	}
+	if has(c.Show, "fresh") {
+		implFresh(c, &sb)
+	}
+	if has(c.Show, "runbool") {
+		implRunBool(c, &sb)
+	}
+	if has(c.Show, "dump") {
+		captureStart()
+		var derr error
+		escaped := ""
+		func() {
+			defer func() {
+				if rec := recover(); rec != nil {
+					escaped = fmt.Sprint(rec)
+				}
+			}()
+			derr = e.Dump()
+		}()
+		d := captureStop()
+		if escaped != "" {
+			sb.WriteString(" dump=ESCAPED:" + hexs(escaped))
+		} else if derr != nil {
+			sb.WriteString(" dump=E")
+		} else {
+			sb.WriteString(" dump=" + hexs(d))
+		}
 	}
 	return sb.String()
+}
+
+// one run on an evaluator, rendered like the r/o/g keys
+func oneRun(e *evalfilter.Eval, ctx *pollCtx, r Run) (res, out, globals string) {
+	obj, objErr := buildObj(r.Obj)
+	ctx.reset(r.Polls)
+	var o object.Object
+	var err error
+	escaped := ""
+	captureStart()
+	func() {
+		defer func() {
+			if rec := recover(); rec != nil {
+				escaped = fmt.Sprint(rec)
+			}
+		}()
+		if objErr != "" {
+			panic("harness: cannot build object")
+		}
+		o, err = e.Execute(obj)
+	}()
+	stdout := stripNoise(captureStop())
+	switch {
+	case escaped != "":
+		res = "ESCAPED:" + hexs(escaped)
+	case err != nil:
+		res = "E:" + classify(err)
+	default:
+		res = "V:" + showValue(o)
+	}
+	return res, hexs(stdout), showGlobals(e.VerifEnvironment().VerifGlobals())
+}
+
+// implFresh: the k-th run of the history on a freshly prepared evaluator that holds the variables
+// the used evaluator held before its k-th run (keys f<k>, h<k>, j<k> mirror r<k>, o<k>, g<k>).
+func implFresh(c *Case, sb *strings.Builder) {
+	ctx := newPollCtx()
+	captureStart()
+	used, errText, panicked := prepareEval(c, c.Opt, ctx)
+	captureStop()
+	if panicked || errText != "" {
+		return
+	}
+	for i, r := range c.Runs {
+		before := used.VerifEnvironment().VerifGlobals()
+		fctx := newPollCtx()
+		captureStart()
+		fresh, et, pk := prepareEval(c, c.Opt, fctx)
+		captureStop()
+		if pk || et != "" {
+			return
+		}
+		for k, v := range before {
+			fresh.SetVariable(k, v)
+		}
+		fr, fo, fg := oneRun(fresh, fctx, r)
+		fmt.Fprintf(sb, " f%d=%s h%d=%s j%d=%s", i, fr, i, fo, i, fg)
+		fmt.Fprintf(sb, " q%d=%d", i, fctx.calls)
+		oneRun(used, ctx, r)
+	}
+}
+
+// implRunBool: the same history through Run (keys b<k>): 1/0 or E
+func implRunBool(c *Case, sb *strings.Builder) {
+	ctx := newPollCtx()
+	captureStart()
+	e, errText, panicked := prepareEval(c, c.Opt, ctx)
+	captureStop()
+	if panicked || errText != "" {
+		return
+	}
+	for i, r := range c.Runs {
+		obj, objErr := buildObj(r.Obj)
+		ctx.reset(r.Polls)
+		res := ""
+		captureStart()
+		func() {
+			defer func() {
+				if rec := recover(); rec != nil {
+					res = "ESCAPED:" + hexs(fmt.Sprint(rec))
+				}
+			}()
+			if objErr != "" {
+				panic("harness: cannot build object")
+			}
+			b, err := e.Run(obj)
+			if err != nil {
+				res = "E"
+			} else if b {
+				res = "1"
+			} else {
+				res = "0"
+			}
+		}()
+		captureStop()
+		fmt.Fprintf(sb, " b%d=%s", i, res)
+	}
 }
 
 func buildObj(h HV) (obj interface{}, errText string) {
